@@ -165,11 +165,53 @@ Definition P_C09 (k : rcase) (o : val) : bool :=
   end.
 
 (* ---- C11 ---- *)
+(* Naive specification of the documented validation of remap_curie_prefixes(converter, remapping), on the record list and the
+   remapping alone (no converter, no index, no grouping, no ordering).  A string NAMES the record that lists it as its CURIE
+   prefix or as one of its CURIE prefix synonyms (Spec.owner_by_prefix); a string that no record lists names nothing.  Records
+   are told apart by their canonical CURIE prefix.  The checks, in the documented order:
+     11 DuplicateKeys         two pairs of the remapping (they have different keys: the remapping is a dictionary) whose KEYS
+                              name the same record;
+     12 DuplicateValues       two pairs of the remapping whose VALUES name the same record (the same known string used as the
+                              value of two pairs counts; unknown values never count);
+     13 InconsistentMapping   two different strings naming the same record among: all the keys, and the values of those pairs
+                              whose value does not name the record named by the pair's own key ("synonym remappings are not
+                              penalised");
+     14 CycleDetected         following key -> value from some key comes back to that key (after 1 .. |remapping| steps);
+   otherwise no error. *)
+Definition names_same (rs : list record) (a b : str) : bool :=
+  match owner_by_prefix rs a, owner_by_prefix rs b with
+  | Some x, Some y => str_eqb (r_prefix x) (r_prefix y)
+  | _, _ => false
+  end.
+Definition two_pairs_same (rs : list record) (sel : str * str -> str) (m : list (str * str)) : bool :=
+  existsb (fun x => existsb (fun y => negb (str_eqb (fst x) (fst y)) && names_same rs (sel x) (sel y)) m) m.
+Definition remap_names (rs : list record) (m : list (str * str)) : list str :=
+  map fst m ++ map snd (filter (fun kv => negb (names_same rs (fst kv) (snd kv))) m).
+Definition two_names_same (rs : list record) (l : list str) : bool :=
+  existsb (fun a => existsb (fun b => negb (str_eqb a b) && names_same rs a b) l) l.
+(* n steps key -> value starting from s; None when a string that is not a key is reached before *)
+Fixpoint follow (m : list (str * str)) (n : nat) (s : str) : option str :=
+  match n with
+  | O => Some s
+  | S n' => match dget s m with Some v => follow m n' v | None => None end
+  end.
+Definition remap_cycle (m : list (str * str)) : bool :=
+  existsb (fun k => existsb (fun n => match follow m (S n) k with Some s => str_eqb s k | None => false end)
+                            (seq 0 (length m))) (map fst m).
+Definition spec_remap_error (rs : list record) (m : list (str * str)) : option Z :=
+  if two_pairs_same rs fst m then Some 11%Z
+  else if two_pairs_same rs snd m then Some 12%Z
+  else if two_names_same rs (remap_names rs m) then Some 13%Z
+  else if remap_cycle m then Some 14%Z
+  else None.
+
 Definition P_C11 (k : rcase) (o : val) : bool :=
   match o, rc_op k, rc_inputs k with
   | VList [VInt code; VList answers; _], DRemapCurie m, c :: _ =>
-      if existsb (Z.eqb code) [11; 12; 13; 14]%Z then true           (* documented rejections *)
-      else if negb (Z.eqb code 0) then false
+      match spec_remap_error c m with
+      | Some e => Z.eqb code e          (* rejected exactly when the specification says so, with exactly that error *)
+      | None =>
+      if negb (Z.eqb code 0) then false
       else match result_records k answers with
       | None => false
       | Some R =>
@@ -200,6 +242,7 @@ Definition P_C11 (k : rcase) (o : val) : bool :=
                    then match owner_by_prefix R new with Some x => str_eqb (r_uri x) (r_uri r2) | None => false end
                    else true
                | _, _ => true end) m
+      end
       end
   | _, _, _ => false
   end.
